@@ -694,6 +694,13 @@ def defuse(rc):
     from . import shared as _sh
     _sh.defuse_rule(rc, _sh.anchor_files("C11"))
 
+
+@rule("C11.data", "preprocess_data (run in front of every estimator, score and CI test) hands on the caller's values: copy, column-wise value-preserving casts", floor=2)
+def data_(rc):
+    from . import shared as _sh
+    _sh.preprocess_rule(rc)
+
+
 MUTANTS = [
     dict(kind="break", name="named-score-without-declared-states", file=HC, expect="C11.apply",
          old="                    data=self.data, state_names=self.state_names\n", new="                    data=self.data\n"),
